@@ -37,7 +37,7 @@ func corsHeadersModel(s *spec.Spec, pi *spec.PathItem) []string {
 				if sc == nil {
 					continue
 				}
-				if sc.Type == "http" && sc.Scheme == "bearer" {
+				if sc.Type == "http" && strings.EqualFold(sc.Scheme, "bearer") {
 					add("Authorization")
 				}
 				if sc.Type == "apiKey" && sc.In == "header" {
@@ -67,7 +67,7 @@ func C17(run *report.Run) {
 		}
 	}
 	hdrVariants := []string{"none", "op", "pathitem", "two-casings", "two-distinct", "ref", "three-pathitem+per-op", "credential-header-declared"}
-	secVariants := []string{"none", "bearer-global", "apikey-op", "both", "bearer-op-override", "alternatives-later", "two-bearer-schemes"}
+	secVariants := []string{"none", "bearer-global", "apikey-op", "both", "bearer-op-override", "alternatives-later", "two-bearer-schemes", "bearer-capital-global", "apikey-query-op"}
 	second := []string{"/q", "/a/{x}", "/a/{x}/c"}
 	var states []BState
 	for _, ms := range methodSets {
@@ -87,7 +87,7 @@ func C17(run *report.Run) {
 									}
 									// the later-added variants: against a reduced set of the other dimension
 									newH := hv == "three-pathitem+per-op" || hv == "credential-header-declared"
-									newS := sv == "two-bearer-schemes"
+									newS := sv == "two-bearer-schemes" || sv == "bearer-capital-global" || sv == "apikey-query-op"
 									if newH && sv != "none" && sv != "bearer-global" && sv != "two-bearer-schemes" {
 										continue
 									}
@@ -136,7 +136,7 @@ func C17(run *report.Run) {
 										}
 									}
 									switch sv {
-									case "apikey-op", "both":
+									case "apikey-op", "both", "apikey-query-op":
 										if i == 0 {
 											op.Security = &[]spec.SecReq{{"k"}}
 										}
@@ -177,6 +177,12 @@ func C17(run *report.Run) {
 									s.Comp.Security = []spec.SecScheme{{Key: "k", Type: "apiKey", In: "header", Name: "x-key"}}
 								case "two-bearer-schemes":
 									s.Comp.Security = []spec.SecScheme{{Key: "b", Type: "http", Scheme: "bearer"}, {Key: "b2", Type: "http", Scheme: "bearer"}}
+									s.Security = &[]spec.SecReq{{"b"}}
+								case "apikey-query-op":
+									// a key carried in the query string is not a request header
+									s.Comp.Security = []spec.SecScheme{{Key: "k", Type: "apiKey", In: "query", Name: "api_key"}}
+								case "bearer-capital-global":
+									s.Comp.Security = []spec.SecScheme{{Key: "b", Type: "http", Scheme: "Bearer"}}
 									s.Security = &[]spec.SecReq{{"b"}}
 								case "both", "alternatives-later":
 									s.Comp.Security = []spec.SecScheme{{Key: "b", Type: "http", Scheme: "bearer"}, {Key: "k", Type: "apiKey", In: "header", Name: "x-key"}}
